@@ -963,6 +963,10 @@ func (a *typedArrayObject) iterateStringKeys() iterNextFunc {
 
 func (a *typedArrayObject) exportToArrayOrSlice(dst reflect.Value, typ reflect.Type, ctx *objectExportCtx) error {
 	if typ == typeBytes {
+		if a.viewedArrayBuf.detached {
+			dst.Set(reflect.Zero(typ))
+			return nil
+		}
 		dst.Set(reflect.ValueOf(a.viewedArrayBuf.data[a.offset*a.elemSize : (a.offset+a.length)*a.elemSize]))
 		return nil
 	}
@@ -970,6 +974,9 @@ func (a *typedArrayObject) exportToArrayOrSlice(dst reflect.Value, typ reflect.T
 }
 
 func (a *typedArrayObject) export(_ *objectExportCtx) interface{} {
+	if a.viewedArrayBuf.detached {
+		return reflect.Zero(a.typedArray.exportType()).Interface()
+	}
 	return a.typedArray.export(a.offset, a.length)
 }
 
@@ -979,6 +986,10 @@ func (a *typedArrayObject) exportType() reflect.Type {
 
 func (o *dataViewObject) exportToArrayOrSlice(dst reflect.Value, typ reflect.Type, ctx *objectExportCtx) error {
 	if typ == typeBytes {
+		if o.viewedArrayBuf.detached {
+			dst.Set(reflect.Zero(typ))
+			return nil
+		}
 		dst.Set(reflect.ValueOf(o.viewedArrayBuf.data[o.byteOffset : o.byteOffset+o.byteLen]))
 		return nil
 	}
